@@ -127,16 +127,21 @@ inductive Op where
   | write                    -- nm_individual_address_write(target)
   deriving DecidableEq, Repr
 
-/-- `dm_restart(xknx, x)` -/
-def restartProc (bus : Bus) (x : Nat) : Out :=
-  { res := .ok, tels := [.conn x, .data x 0 .restart, .disc x], acks := [], bus := restartAt bus x }
+/-- `dm_restart(xknx, x)`: nothing is awaited, so normally the outcome does not depend on the population. Only when a
+refusing device's T_Disconnect is processed while the T_Connect send is still awaited (`sync`) does `send_data` find the
+connection closed: ManagementConnectionRefused, nothing but T_Connect was sent, nothing is restarted. -/
+def restartProc (sync : Bool) (bus : Bus) (x : Nat) : Out :=
+  if sync ∧ 0 < countAt bus x .refuses then
+    { res := .refused, tels := [.conn x], acks := [], bus := bus }
+  else
+    { res := .ok, tels := [.conn x, .data x 0 .restart, .disc x], acks := [], bus := restartAt bus x }
 
 /-- One procedure. Nothing but the bus is carried from one procedure to the next: every procedure leaves
 `Management` without connection objects and broadcast contexts. -/
 def runOp (sync : Bool) (bus : Bus) : Op → Out
   | .check x => { res := .okBool (checkAddress sync bus x).1, tels := (checkAddress sync bus x).2.1,
                   acks := (checkAddress sync bus x).2.2, bus := bus }
-  | .restartDev x => restartProc bus x
+  | .restartDev x => restartProc sync bus x
   | .read r => { res := readProg bus r, tels := [.bRead], acks := [], bus := bus }
   | .write => addrWrite sync bus
 
